@@ -298,6 +298,7 @@ impl StateRead for SimState {
             n: num_values,
             err: r.as_ref().err().map(|e| e.id),
             values: r.as_ref().map(|v| v.len()).unwrap_or(0),
+            data: if events::keeping() { r.as_ref().ok().cloned() } else { None },
         });
         rayon::sim::switch_point();
         r
